@@ -71,7 +71,9 @@ def r1_two_directions(run):
     rev = [x for x in sets if unparse(x[1].targets[0]) == "self.db[name_id.text]"]
     ok = len(fwd) == 1 and len(rev) == 1 and \
         unparse(rev[0][1].value) == "ident" and \
-        unparse(fwd[0][1].value) == "' '.join(val)"
+        isinstance(fwd[0][1].value, ast.Call) and \
+        call_name(fwd[0][1].value) == "join" and \
+        unparse(fwd[0][1].value.func.value) == "' '"
     if ok:
         for nd, s in (fwd[0], rev[0]):
             ok = ok and not unguarded_path(cfg, cfg.entry, [cfg.return_exit],
@@ -81,21 +83,29 @@ def r1_two_directions(run):
               "forward and reverse entries are written on every path",
               "store() no longer writes both db[ident] and db[name_id.text] on "
               "every path", st.loc())
-    app = [c for c in calls_named(st.node, "append")
-           if attr_chain(c.func) == "val.append"]
-    cn = [s for s in walk_no_nested(st.node) if isinstance(s, ast.Assign) and
-          unparse(s.targets[0]) == "_cn"]
-    ok = len(app) == 1 and unparse(app[0].args[0]) == "_cn" and len(cn) == 1 \
-        and unparse(cn[0].value) == "code(name_id)"
+    # the list that is joined into db[ident] gets the encoded NameID appended
+    # to the identifiers kept so far
+    lst = None
+    if len(fwd) == 1:
+        v = fwd[0][1].value
+        if isinstance(v, ast.Call) and call_name(v) == "join" and \
+                isinstance(v.func.value, ast.Constant) and \
+                v.func.value.value == " " and len(v.args) == 1 and \
+                isinstance(v.args[0], ast.Name):
+            lst = v.args[0].id
+    app = [(nd, c) for nd, c in cfg.call_nodes("append")
+           if lst and attr_chain(c.func) == lst + ".append"]
+    ok = len(app) == 1 and cfg.same(app[0][1].args[0], app[0][0].id,
+                                    "code(name_id)")
     run.check(ok, "R1", st.qual + "::forward-value",
               "the encoded NameID is appended to the user's list",
               "forward value changed", st.loc())
     prev = [s for s in walk_no_nested(st.node) if isinstance(s, ast.Assign) and
-            unparse(s.targets[0]) == "val"]
+            lst and unparse(s.targets[0]) == lst]
     run.check({unparse(s.value) for s in prev} ==
               {"self.db[ident].split(' ')", "[]"}, "R1",
               st.qual + "::keeps-previous", "earlier identifiers are kept",
-              "val <- %s" % [unparse(s.value) for s in prev], st.loc())
+              "%s <- %s" % (lst, [unparse(s.value) for s in prev]), st.loc())
     # remove_remote
     rr = m.func(ID + "remove_remote")
     rcfg = cfg_of(rr, m)
@@ -167,22 +177,82 @@ def r2_codec(run):
               "quote/unquote resolve to %s / %s" % (im.imports.get("quote"),
                                                      im.imports.get("unquote")),
               im.relpath, nontrivial=False)
-    run.check("'%d=%s' % (i, quote(val))" in csrc and
-              "','.join(_res)" in csrc and "for attr in ATTR" in csrc, "R2",
+    # one loop over ATTR whose index counts EVERY field: either a counter that
+    # starts at 0 and is incremented unconditionally at the end of the loop
+    # body, or enumerate(ATTR)
+    ccfg = cfg_of(co, m)
+    loops = [l for l in walk_no_nested(co.node) if isinstance(l, ast.For)]
+    idx = None
+    why = "no single loop over ATTR"
+    if len(loops) == 1:
+        lp = loops[0]
+        it = lp.iter
+        if isinstance(it, ast.Name) and it.id == "ATTR":
+            last = lp.body[-1]
+            if isinstance(last, ast.AugAssign) and \
+                    isinstance(last.op, ast.Add) and \
+                    isinstance(last.target, ast.Name) and \
+                    unparse(last.value) == "1":
+                nm = last.target.id
+                inits = [a for a in walk_no_nested(co.node)
+                         if isinstance(a, ast.Assign) and
+                         unparse(a.targets[0]) == nm]
+                others = [a for a in walk_no_nested(co.node)
+                          if isinstance(a, ast.AugAssign) and a is not last and
+                          unparse(a.target) == nm]
+                if len(inits) == 1 and unparse(inits[0].value) == "0" and \
+                        not others and inits[0].lineno < lp.lineno:
+                    idx = nm
+                else:
+                    why = "counter %s is not initialised to 0 exactly once" % nm
+            else:
+                why = "the counter is not incremented as the last, " \
+                    "unconditional statement of the loop"
+        elif isinstance(it, ast.Call) and call_name(it) == "enumerate" and \
+                len(it.args) == 1 and unparse(it.args[0]) == "ATTR" and \
+                not it.keywords and isinstance(lp.target, ast.Tuple) and \
+                len(lp.target.elts) == 2 and \
+                isinstance(lp.target.elts[0], ast.Name):
+            idx = lp.target.elts[0].id
+            rebind = [a for a in ast.walk(lp) if isinstance(a, ast.Name) and
+                      a.id == idx and isinstance(a.ctx, ast.Store) and
+                      a is not lp.target.elts[0]]
+            if rebind:
+                idx, why = None, "the enumerate index is re-bound in the loop"
+    run.check(idx is not None, "R2", co.qual + "::index", "index counts every "
+              "field (also empty ones)", "index increment moved: positions "
+              "would shift when a field is empty (%s)" % why, co.loc())
+    fmt_ok = False
+    lst = None
+    for nd, c in ccfg.call_nodes("append"):
+        a = c.args[0] if c.args else None
+        if isinstance(a, ast.BinOp) and isinstance(a.op, ast.Mod) and \
+                isinstance(a.left, ast.Constant) and a.left.value == "%d=%s" \
+                and isinstance(a.right, ast.Tuple) and len(a.right.elts) == 2 \
+                and unparse(a.right.elts[0]) == (idx or "?") and \
+                isinstance(a.right.elts[1], ast.Call) and \
+                call_name(a.right.elts[1]) == "quote" and \
+                isinstance(c.func.value, ast.Name):
+            fmt_ok = True
+            lst = c.func.value.id
+    rets = ccfg.by_kind("return")
+    run.check(fmt_ok and len(rets) == 1 and
+              unparse(rets[0].ast.value) == "','.join(%s)" % lst, "R2",
               co.qual + "::format", "'<index>=<quoted>' joined by ','",
               "encoder format changed", co.loc())
-    # index advances for every field, set or not
-    loop = [l for l in walk_no_nested(co.node) if isinstance(l, ast.For)]
-    inc_ok = False
-    if loop:
-        last = loop[0].body[-1]
-        inc_ok = isinstance(last, ast.AugAssign) and unparse(last) == "i += 1"
-    run.check(inc_ok, "R2", co.qual + "::index", "index counts every field "
-              "(also empty ones)", "index increment moved: positions would "
-              "shift when a field is empty", co.loc())
     dsrc = unparse(de.node)
-    run.check("txt.split(',')" in dsrc and "part.split('=')" in dsrc and
-              "ATTR[int(i)]" in dsrc and "unquote(val)" in dsrc, "R2",
+    dcfg = cfg_of(de, m)
+    sa_ = [(dcfg.itext(c.args[1], nd.id), dcfg.itext(c.args[2], nd.id))
+           for nd, c in dcfg.call_nodes("setattr") if len(c.args) == 3]
+    un = [x for x in ast.walk(de.node) if isinstance(x, ast.Assign) and
+          isinstance(x.targets[0], ast.Tuple) and
+          len(x.targets[0].elts) == 2 and
+          unparse(x.value) == "part.split('=')"]
+    names = [e.id for e in un[0].targets[0].elts] if len(un) == 1 and all(
+        isinstance(e, ast.Name) for e in un[0].targets[0].elts) else ["?", "?"]
+    run.check("txt.split(',')" in dsrc and len(un) == 1 and
+              sa_ == [("ATTR[int(%s)]" % names[0], "unquote(%s)" % names[1])],
+              "R2",
               de.qual + "::format", "splits on ',' and '=', unquotes, indexes "
               "ATTR", "decoder format changed", de.loc())
     # list separator used by IdentDB
